@@ -3,6 +3,8 @@ import Mathlib.Tactic.Ring
 import Mathlib.Algebra.Ring.Defs
 
 /-! Helper lemmas for C04: pointwise algebra of `V3`/`SV`, list pairings, flat-vector scatter. -/
+set_option linter.unusedSectionVars false
+set_option linter.unusedVariables false
 namespace C04
 variable {K : Type} [CommRing K]
 
